@@ -54,6 +54,32 @@ func (g *FuncGen) callCommon(cc *ssa.CallCommon, res ssa.Value, in ssa.Instructi
 				}
 			}
 		}
+		if sname, fname, ok := g.pureFuncFieldOf(cc.Value); ok && res != nil {
+			// call through a field declared `ghost purefunc`: an uninterpreted function of the function value and
+			// the arguments; no effect on the state
+			g.c.note("assumed: function values stored in field " + fname + " of " + sname + " are pure and deterministic (ghost purefunc)")
+			v := g.define(res, g.pureFieldApp(sname, fname, fv, args, res.Type()))
+			return &v
+		}
+		if _, isParam := cc.Value.(*ssa.Parameter); isParam && g.contract != nil && g.contract.Options["readonly-callbacks"] == "true" {
+			// option readonly-callbacks: the callback parameters of this function do not modify state reachable
+			// from the function's arguments (an assumption about the callers, listed in evidence); results arbitrary
+			g.c.note("assumed: callback parameters do not modify the data structure (option readonly-callbacks)")
+			name := "callback " + cc.Value.Name()
+			var rv *Val
+			if res != nil {
+				if t, ok := res.Type().(*types.Tuple); ok && t.Len() == 0 {
+					rv = &Val{Tup: []Val{}}
+				} else {
+					v := g.freshFor(res)
+					rv = &v
+				}
+			}
+			g.ghostState = g.cur
+			g.ghostAtUncontracted(name, args, rv)
+			g.ghostState = nil
+			return rv
+		}
 		return g.havocCall("dynamic call "+exprText(cc.Value), cc, args, res, in)
 	}
 	name := callee.String()
@@ -80,6 +106,56 @@ func (g *FuncGen) callCommon(cc *ssa.CallCommon, res ssa.Value, in ssa.Instructi
 	g.ghostAtUncontracted(name, args, rv)
 	g.ghostState = nil
 	return rv
+}
+
+// pureFuncFieldOf: v is a load of a struct field that a contract file declares `ghost purefunc`.
+func (g *FuncGen) pureFuncFieldOf(v ssa.Value) (string, string, bool) {
+	ld, ok := v.(*ssa.UnOp)
+	if !ok || ld.Op != token.MUL {
+		return "", "", false
+	}
+	fa, ok := ld.X.(*ssa.FieldAddr)
+	if !ok {
+		return "", "", false
+	}
+	st, sname, ok := g.c.structOf(derefType(fa.X.Type()))
+	if !ok {
+		return "", "", false
+	}
+	fname := st.Field(fa.Field).Name()
+	return sname, fname, g.isPureFuncField(sname, fname)
+}
+
+func (g *FuncGen) isPureFuncField(sname, fname string) bool {
+	want := strings.TrimPrefix(sname, "S_") // pkgname.Type
+	for key, m := range g.prog.GhostFields {
+		if _, ok := m["purefunc:"+fname]; !ok {
+			continue
+		}
+		k := key
+		if i := strings.LastIndex(k, "/"); i >= 0 {
+			k = k[i+1:]
+		}
+		if sanitize(k) == want {
+			return true
+		}
+	}
+	return false
+}
+
+// pureFieldApp: application term of the uninterpreted function standing for calls through a pure function field.
+func (g *FuncGen) pureFieldApp(sname, fname string, fv Val, args []Val, resT types.Type) string {
+	c := g.c
+	rs := c.sortOf(resT)
+	sorts := []string{SInt}
+	ts := []string{fv.T}
+	for _, a := range args {
+		sorts = append(sorts, a.S)
+		ts = append(ts, a.T)
+	}
+	fn := "pfcall_" + sanitize(sname) + "_" + sanitize(fname)
+	c.decl(fmt.Sprintf("(declare-fun %s (%s) %s)", fn, strings.Join(sorts, " "), rs))
+	return fmt.Sprintf("(%s %s)", fn, strings.Join(ts, " "))
 }
 
 // ghostAtUncontracted runs `ghost at call` statements for a callee that has no contract: the arguments are
@@ -280,6 +356,9 @@ func (g *FuncGen) builtin(b *ssa.Builtin, cc *ssa.CallCommon, res ssa.Value, in 
 		case *types.Map:
 			card := fmt.Sprintf("(%s %s)", g.cardFn(u), g.mapDom(g.cur, u, a.T))
 			c.assert(implies(g.bcond[g.curBlock], g.le64(c.intLit64(0, 64), card)))
+			// a map has length 0 exactly when it has no keys
+			dom := g.mapDom(g.cur, u, a.T)
+			c.assert(eq(eq(card, c.intLit64(0, 64)), eq(dom, fmt.Sprintf("((as const (Array %s Bool)) false)", c.sortOf(u.Key())))))
 			return ret(Val{T: ite(eq(a.T, "0"), c.intLit64(0, 64), card), S: i64, GT: types.Typ[types.Int]})
 		case *types.Array:
 			return ret(Val{T: c.intLit64(u.Len(), 64), S: i64, GT: types.Typ[types.Int]})
@@ -1081,12 +1160,23 @@ func (g *FuncGen) callWrites(cc *ssa.CallCommon) ([]string, bool) {
 			name = o.String()
 		}
 		ct = g.prog.Contracts[name]
+		if ct == nil && strings.Contains(name, "[") {
+			ct = g.prog.Contracts[stripTypeParams(name)]
+		}
 		if ct == nil {
 			for _, p := range noEffectPrefixes {
 				if strings.HasPrefix(name, p) {
 					return nil, false
 				}
 			}
+		}
+	} else {
+		// dynamic call: closures with a contract, read-only callbacks and pure function fields write nothing (more)
+		if _, isParam := cc.Value.(*ssa.Parameter); isParam && g.contract != nil && g.contract.Options["readonly-callbacks"] == "true" {
+			return nil, false
+		}
+		if _, _, ok := g.pureFuncFieldOf(cc.Value); ok {
+			return nil, false
 		}
 	}
 	if ct == nil || !ct.AssignsSet {
